@@ -276,13 +276,43 @@ func c11R3(c *Ctx, r *Report) {
 			}
 			n++
 			cons := fmt.Sprintf("Notify#%d", n)
-			// id is a parameter whose call-site argument derives from GetNotificationId
-			p, ok := cc.Args[1].(*ssa.Parameter)
-			okId := false
-			if !ok {
-				// notified in the function that parsed the id itself (the apply case written inline)
-				direct := len(origins(cc.Args[1], originOpt{})) > 0
-				for _, o := range origins(cc.Args[1], originOpt{}) {
+			// the id is parsed from the entry's notification id in this function, or is a parameter that every call site (in the
+			// apply tree) fills with such an id — through up to three levels of helpers (apply function -> reply helper)
+			var idOK func(g *ssa.Function, v ssa.Value, d int) bool
+			idOK = func(g *ssa.Function, v ssa.Value, d int) bool {
+				if d > 3 {
+					return false
+				}
+				if p, isP := v.(*ssa.Parameter); isP {
+					pi := -1
+					for k, pp := range g.Params {
+						if pp == p {
+							pi = k
+						}
+					}
+					if pi < 0 {
+						return false
+					}
+					cnt, okAll := 0, true
+					for h := range reach {
+						eachInstr(h, func(j ssa.Instruction) {
+							cl, ok := j.(*ssa.Call)
+							if !ok || cl.Call.StaticCallee() != g || pi >= len(cl.Call.Args) {
+								return
+							}
+							cnt++
+							if !idOK(h, cl.Call.Args[pi], d+1) {
+								okAll = false
+							}
+						})
+					}
+					return cnt > 0 && okAll
+				}
+				os := origins(v, originOpt{})
+				if len(os) == 0 {
+					return false
+				}
+				for _, o := range os {
 					from := false
 					if ex, isEx := o.(*ssa.Extract); isEx {
 						if fc, isC := ex.Tuple.(*ssa.Call); isC && callID(&fc.Call).Name == "FromBytes" {
@@ -291,45 +321,16 @@ func c11R3(c *Ctx, r *Report) {
 							}
 						}
 					}
+					if p, isP := o.(*ssa.Parameter); isP && idOK(g, p, d+1) {
+						from = true
+					}
 					if !from {
-						direct = false
+						return false
 					}
 				}
-				okId = direct
+				return true
 			}
-			if ok {
-				pi := -1
-				for k, pp := range f.Params {
-					if pp == p {
-						pi = k
-					}
-				}
-				cnt := 0
-				okAll := true
-				for g := range reach {
-					eachInstr(g, func(j ssa.Instruction) {
-						cl, ok := j.(*ssa.Call)
-						if !ok || cl.Call.StaticCallee() != f {
-							return
-						}
-						cnt++
-						from := false
-						for _, o := range origins(cl.Call.Args[pi], originOpt{}) {
-							if ex, ok := o.(*ssa.Extract); ok {
-								if fc, ok := ex.Tuple.(*ssa.Call); ok && callID(&fc.Call).Name == "FromBytes" {
-									if gc, ok := fc.Call.Args[0].(*ssa.Call); ok && callID(&gc.Call).Name == "GetNotificationId" {
-										from = true
-									}
-								}
-							}
-						}
-						if !from {
-							okAll = false
-						}
-					})
-				}
-				okId = cnt > 0 && okAll
-			}
+			okId := idOK(f, cc.Args[1], 0)
 			r.Check(okId, "C11.R3", fnName(f), cons+"-id", c.InstrPos(i), "notifies the id parsed from the entry's NotificationId")
 			// value: if the function performs a fallible index operation, the notified value derives from its error / the collected error map
 			var errs []ssa.Value
@@ -890,6 +891,33 @@ func c11R5(c *Ctx, r *Report) {
 				ok := ifi != nil && guardedBy(rt.Block(), ifi, nilPol)
 				r.Check(ok, "C11.R5", fnName(f), fmt.Sprintf("nil-only-if-outcome-nil#%d", k+1), c.Pos(rt.Pos()), "success is returned only when the applied outcome is nil")
 			}
+			// the pair (outcome, error) may be handed to a converter (`return outcomeToError(propose(...))`): judged there
+			if res != nil && res.Referrers() != nil {
+				for _, u := range *res.Referrers() {
+					hc, isC := u.(*ssa.Call)
+					if !isC || hc.Call.StaticCallee() == nil || !modLocal(hc.Call.StaticCallee()) {
+						continue
+					}
+					g := hc.Call.StaticCallee()
+					pi := -1
+					for ai, a := range hc.Call.Args {
+						if a == res {
+							pi = ai
+						}
+					}
+					if pi < 0 || pi >= len(g.Params) || g.Signature.Results().Len() != 1 || !isErrorType(g.Signature.Results().At(0).Type()) {
+						continue
+					}
+					gi, gpol := nilTestOf(g, g.Params[pi])
+					for k, rt := range returnsOf(g) {
+						if !isNilConst(rt.Results[0]) {
+							continue
+						}
+						ok := gi != nil && guardedBy(rt.Block(), gi, gpol)
+						r.Check(ok, "C11.R5", fnName(g), fmt.Sprintf("nil-only-if-outcome-nil#%d", k+1), c.Pos(rt.Pos()), "success is returned only when the applied outcome is nil (in the converter the proposing method hands the outcome to)")
+					}
+				}
+			}
 		})
 	}
 }
@@ -1140,7 +1168,31 @@ func c11R6(c *Ctx, r *Report) {
 				sends = append(sends, s)
 			}
 		})
-		if len(sends) == 0 {
+		// the worker may also hand its one result back to a wrapper that sends it: then its returns are the emit sites
+		type emit struct {
+			blk *ssa.BasicBlock
+			v   ssa.Value
+		}
+		var emits []emit
+		for _, sd := range sends {
+			emits = append(emits, emit{sd.Block(), sd.X})
+		}
+		returnsResult := false
+		if rs := f.Signature.Results(); len(sends) == 0 && rs.Len() == 1 && typeName(rs.At(0).Type()) == "partitionBatchResult" && f.Parent() == nil {
+			hasItems := false
+			for _, p := range f.Params {
+				if strings.Contains(p.Type().String(), "BatchItem") {
+					hasItems = true
+				}
+			}
+			if hasItems && f.Signature.Recv() != nil && f.Signature.Params().Len() >= 3 {
+				returnsResult = true
+				for _, rt := range returnsOf(f) {
+					emits = append(emits, emit{rt.Return.Block(), rt.Results[0]})
+				}
+			}
+		}
+		if len(emits) == 0 {
 			continue
 		}
 		var items *ssa.Parameter
@@ -1157,11 +1209,11 @@ func c11R6(c *Ctx, r *Report) {
 			}
 			n++
 			okS := false
-			for _, s := range sends {
-				if !guardedBy(s.Block(), ifi, true) {
+			for _, s := range emits {
+				if !guardedBy(s.blk, ifi, true) {
 					continue
 				}
-				if cl, ok := strip(s.X).(*ssa.Call); ok && cl.Call.StaticCallee() != nil {
+				if cl, ok := strip(s.v).(*ssa.Call); ok && cl.Call.StaticCallee() != nil {
 					args := cl.Call.Args
 					hasItems, hasErr := false, false
 					for _, a := range args {
@@ -1180,6 +1232,9 @@ func c11R6(c *Ctx, r *Report) {
 		}
 		// exactly one send on every path
 		min, max := sendCounts(f, func(s *ssa.Send) bool { return typeName(s.X.Type()) == "partitionBatchResult" })
+		if returnsResult {
+			min, max = 1, 1 // one return per call; that the wrapper sends it once is the wrapper's send count
+		}
 		r.Check(min == 1 && max == 1, "C11.R6", fnName(f), "one-result-per-worker", c.Pos(f.Pos()), fmt.Sprintf("every path sends exactly one result (min %d, max %d)", min, max))
 	}
 	// merge in the collector: received map's entries are copied into the result
@@ -1475,6 +1530,27 @@ func checkC09(c *Ctx, r *Report, tier string) {
 				}
 			}
 		})
+		if len(gos) == 0 && via == nil {
+			// a pure collector that other search functions delegate to (handed the channels): judged through its callers
+			delegate := false
+			for _, sf := range searchFns {
+				if sf == f {
+					continue
+				}
+				eachInstr(sf, func(i ssa.Instruction) {
+					if cl, ok := i.(*ssa.Call); ok && cl.Call.StaticCallee() == f {
+						for _, a := range cl.Call.Args {
+							if _, isCh := a.Type().Underlying().(*types.Chan); isCh {
+								delegate = true
+							}
+						}
+					}
+				})
+			}
+			if delegate {
+				continue
+			}
+		}
 		if len(gos) != 1 {
 			r.Bad("C09.R2", fn, "spawn", c.Pos(f.Pos()), fmt.Sprintf("%d worker spawn sites, want 1", len(gos)))
 			continue
